@@ -121,7 +121,7 @@ class CallModel:
             positionals=[(True, composite([attach(am.known(o))])) for o in positionals],
             star_args=None,
             keywords={k: (True, composite([attach(am.known(o))])) for k, o in keywords.items()},
-            star_kwargs=None, kwargs_required=False, pos_or_keyword_params=frozenset(), ellipsis=False, param_spec=None,
+            star_kwargs=None, kwargs_required=False, pos_or_keyword_params=frozenset(), min_star_args=0, ellipsis=False, param_spec=None,
         )
         fn = self.sig_methods["check_call_preprocessed"]
         try:
@@ -370,7 +370,7 @@ class GenericCallModel(CallModel):
             it.globals[m] = Sym(m)
         actual = Obj(
             "ActualArguments", positionals=[(True, composite([attach(am.known(o))])) for o in positionals], star_args=None, keywords={}, star_kwargs=None, kwargs_required=False,
-            pos_or_keyword_params=frozenset(), ellipsis=False, param_spec=None,
+            pos_or_keyword_params=frozenset(), min_star_args=0, ellipsis=False, param_spec=None,
         )
         fn = self.sig_methods["check_call_preprocessed"]
         try:
@@ -501,7 +501,7 @@ class VarCallModel(CallModel):
             it.globals[m] = Sym(m)
         actual = Obj(
             "ActualArguments", positionals=[(True, composite([attach(am.known(o))])) for o in positionals], star_args=None,
-            keywords={k: (True, composite([attach(am.known(o))])) for k, o in keywords.items()}, star_kwargs=None, kwargs_required=False, pos_or_keyword_params=frozenset(),
+            keywords={k: (True, composite([attach(am.known(o))])) for k, o in keywords.items()}, star_kwargs=None, kwargs_required=False, pos_or_keyword_params=frozenset(), min_star_args=0,
             ellipsis=False, param_spec=None,
         )
         fn = self.sig_methods["check_call_preprocessed"]
